@@ -11,6 +11,7 @@ import ir
 from ir import IntT, FloatT, PtrT, ArrT, StructT, VecT, FuncT, VoidT, sizeof, struct_offsets
 
 M64 = (1 << 64) - 1
+ADDR_BASE = 0x5A5A00010000      # llsym object addresses live far from the small / boundary values solvers like to pick
 
 
 class PathEnd(Exception):
@@ -148,7 +149,7 @@ class Exec:
         self.prefix, self.di, self.trail = prefix, 0, []
         self.pc = []
         self.objs, self.bases = [], []
-        self.next_addr = 0x10000
+        self.next_addr = ADDR_BASE
         self.gaddr, self.faddr, self.addr_func = {}, {}, {}
         self.sym_counter = 0
         self.names = {}
